@@ -42,16 +42,23 @@ Fixpoint wdom (m : memo) (e : expr) : bool :=
   | _ => hit m e
   end.
 
-(* L is the application tree of e down to the memoised sub-expressions *)
-Inductive wshape (m : memo) : expr -> lx -> Prop :=
-| ws_hit e n : memo_find (key_of e) m = Some n -> wshape m e (LLeaf n)
-| ws_op i o c : wshape m (EOp i o) (LSpine c o [])
+(* L is the application tree of e down to the sub-expressions at which add_expr
+   stops ([stop]: sources and what is in the memo when add_expr is called); the
+   leaves are named by the memo [m] *)
+Inductive wshape (stop : expr -> bool) (m : memo) : expr -> lx -> Prop :=
+| ws_hit e n : stop e = true -> memo_find (key_of e) m = Some n -> wshape stop m e (LLeaf n)
+| ws_op i o c : stop (EOp i o) = false -> wshape stop m (EOp i o) (LSpine c o [])
 | ws_data i f x c o args Lx :
-    wshape m f (LSpine c o args) -> wshape m x Lx ->
-    wshape m (EApp i f x false) (LSpine c o (args ++ [(AData, Lx)]))
+    stop (EApp i f x false) = false ->
+    wshape stop m f (LSpine c o args) -> wshape stop m x Lx ->
+    wshape stop m (EApp i f x false) (LSpine c o (args ++ [(AData, Lx)]))
 | ws_fun i f x c o args iN cx ox argsx :
-    wshape m f (LSpine c o args) -> wshape m x (LSpine cx ox argsx) ->
-    wshape m (EApp i f x true) (LSpine c o (args ++ [(AFun iN, LSpine cx ox argsx)])).
+    stop (EApp i f x true) = false ->
+    wshape stop m f (LSpine c o args) -> wshape stop m x (LSpine cx ox argsx) ->
+    wshape stop m (EApp i f x true) (LSpine c o (args ++ [(AFun iN, LSpine cx ox argsx)])).
+
+Definition stopf (m : memo) (e : expr) : bool :=
+  match e with ESrc _ => true | _ => hit m e end.
 
 (* the memo grows by sources only *)
 Definition mext (m m' : memo) : Prop :=
@@ -110,18 +117,24 @@ Qed.
 Lemma spine_miss_not_abs m e : spine_miss m e = true -> is_abs e = false.
 Proof. destruct e; cbn; auto; discriminate. Qed.
 
-Lemma wshape_mono m m' e L :
-  (forall k n, memo_find k m = Some n -> memo_find k m' = Some n) ->
-  wshape m e L -> wshape m' e L.
+Lemma stopf_ext m m' e : mext m m' -> stopf m' e = stopf m e.
 Proof.
-  intros Hm H. induction H.
-  - apply ws_hit. auto.
-  - apply ws_op.
-  - apply ws_data; auto.
-  - apply ws_fun; auto.
+  intros Hm. destruct e; cbn [stopf]; auto; apply hit_ext; auto; cbn; discriminate.
 Qed.
 
-Lemma wshape_okb m e L : wshape m e L -> okb L = true.
+Lemma wshape_mono stop stop' m m' e L :
+  (forall e, stop' e = stop e) ->
+  (forall k n, memo_find k m = Some n -> memo_find k m' = Some n) ->
+  wshape stop m e L -> wshape stop' m' e L.
+Proof.
+  intros Hs Hm H. induction H.
+  - apply ws_hit; [rewrite Hs|]; auto.
+  - apply ws_op. now rewrite Hs.
+  - apply ws_data; auto. now rewrite Hs.
+  - apply ws_fun; auto. now rewrite Hs.
+Qed.
+
+Lemma wshape_okb stop m e L : wshape stop m e L -> okb L = true.
 Proof.
   intros H. induction H; try reflexivity.
   - rewrite okb_snoc, IHwshape1. cbn [okarg fst snd andb]. exact IHwshape2.
@@ -138,7 +151,7 @@ Definition WInv (st : gstate) : Prop :=
   minj (g_memo st).
 
 Record PostW (e : expr) (c : node) (st : gstate) (L : lx) (st' : gstate) : Prop := mkPostW {
-  q_shape : wshape (g_memo st') e L;
+  q_shape : wshape (stopf (g_memo st)) (g_memo st') e L;
   q_veq : veq (g_tr st') (flow L ++ g_tr st);
   q_names : forall x, In x (names L) -> x = c \/ (g_next st <= x < g_next st');
   q_spine : spine_miss (g_memo st) e = true -> exists o args, L = LSpine c o args;
@@ -170,7 +183,7 @@ Lemma post_hitW e c st n :
   WInv st -> memo_find (key_of e) (g_memo st) = Some n -> PostW e c st (LLeaf n) st.
 Proof.
   intros Hinv Hm. constructor.
-  - now apply ws_hit.
+  - apply ws_hit; [|exact Hm]. destruct e; cbn [stopf]; auto; unfold hit; now rewrite Hm.
   - cbn [flow app]. apply veq_refl.
   - intros x [].
   - intros Hs. apply spine_miss_nohit in Hs. unfold hit in Hs. rewrite Hm in Hs. discriminate.
@@ -231,7 +244,7 @@ Section Part1.
     g_next st1 <= xc -> xc < g_next ss ->
     (forall j, In j (aint a) -> j = g_next st1 /\ j < xc) ->
     veq G (pre_from a ++ g_tr se) ->
-    wshape (g_memo se) (EApp i f x fn) (LSpine c o (args ++ [a])) ->
+    wshape (stopf (g_memo st)) (g_memo se) (EApp i f x fn) (LSpine c o (args ++ [a])) ->
     PostW (EApp i f x fn) c st (LSpine c o (args ++ [a]))
       (mkG (wire add_from false c (anode a) (ci_of a) G) (g_memo se) (g_next se)).
   Proof.
@@ -252,9 +265,9 @@ Section Part1.
     set (st' := mkG (wire add_from false c (anode a) (ci_of a) G) (g_memo se) (g_next se)).
     assert (Hveq' : veq (g_tr st') (flow L' ++ g_tr st)).
     { unfold st', L'. cbn [g_tr].
-      destruct (snd a) as [n | cx ox argsx] eqn:Ea.
+      destruct a as [ka la]. cbn [fst snd] in *.
+      destruct la as [n | cx ox argsx].
       - (* a memoised node (or a new source) passed as data *)
-        destruct a as [ka la]. cbn [fst snd] in *. subst la.
         destruct ka as [|iN|iN]; [|discriminate Hoka|exfalso; apply (Hnoabs iN); reflexivity].
         unfold anode, ci_of. cbn [fst snd lnode].
         assert (HGv : veq G (flow (LSpine c o args) ++ g_tr st)).
@@ -267,13 +280,13 @@ Section Part1.
           * now apply (flow_own_internal c o args j Fnd Hokf).
           * exfalso. apply (Hc2 _ H (vis_internal c j)). reflexivity.
         + intros H. left. now apply (flow_own_internal c o args j Fnd Hokf).
-      - rewrite <- Ea.
-        apply (tail_step add_from Hok c o args a (g_tr st) (g_tr st1) (g_tr se) G (g_next st1)); auto.
+      - apply (tail_step add_from Hok c o args (ka, LSpine cx ox argsx) (g_tr st) (g_tr st1)
+                 (g_tr se) G (g_next st1)); auto.
         + intros t Ht Hv. split; [apply Hc2; auto|]. specialize (I1 t Ht Hv). lia.
-        + rewrite <- Htr. exact Xveq.
+        + cbn [snd]. rewrite <- Htr. exact Xveq.
         + intros y Hy. apply HnX in Hy. lia.
         + intros j Hj. apply Hai in Hj. tauto.
-        + intros n Hn. rewrite Ea in Hn. discriminate Hn. }
+        + intros n Hn. discriminate Hn. }
     assert (HokL : okb L' = true).
     { unfold L'. rewrite okb_snoc, Hokf, Hoka, Hokx. reflexivity. }
     assert (HnL : forall y, In y (names L') -> y = c \/ (g_next st <= y < g_next se)).
@@ -339,7 +352,7 @@ Section Part1.
       + exists (LLeaf c), (set_memo (0, i) c st). split; [reflexivity|].
         destruct Hinv as [I1 [I2 I3]]. destruct Hcur as [Hc1 [Hc2 Hc3]].
         constructor; unfold set_memo; cbn [g_tr g_memo g_next].
-        * apply ws_hit. cbn [key_of memo_find]. now rewrite key_eqb_refl.
+        * apply ws_hit; [reflexivity|]. cbn [key_of memo_find]. now rewrite key_eqb_refl.
         * cbn [flow app]. apply veq_refl.
         * intros y [].
         * cbn. discriminate.
@@ -371,7 +384,7 @@ Section Part1.
       + exists (LSpine c o []), (add_tr (c, p_via, o) st). split; [reflexivity|].
         destruct Hinv as [I1 [I2 I3]]. destruct Hcur as [Hc1 [Hc2 Hc3]].
         constructor; unfold add_tr; cbn [g_tr g_memo g_next].
-        * apply ws_op.
+        * apply ws_op. cbn [stopf]. unfold hit. cbn [key_of]. now rewrite Em.
         * cbn. apply veq_refl.
         * intros y [<- | []]. auto.
         * intros _. exists o, []. reflexivity.
@@ -408,8 +421,8 @@ Section Part1.
                   | ESrc _ => B | EVar _ => B | EOp _ _ => B | EApp _ _ _ _ => B
                   | EAbs j ps b => A j ps b end = B).
         { intros T A B. destruct x; try reflexivity. discriminate Habs. }
-        rewrite Hmatch.
         cbn [fresh fst snd].
+        rewrite Hmatch.
         set (iN := g_next st1).
         set (st3 := add_tr (c, p_internal, iN) (mkG (g_tr st1) (g_memo st1) (S (g_next st1)))).
         assert (Hinv3 : WInv st3).
@@ -445,9 +458,12 @@ Section Part1.
         * intros t Hv. rewrite (add_from_in add_from Hok) by exact Hv. cbn.
           split; (intros [E | H]; [left; symmetry; exact E | right; exact H]).
         * apply ws_fun.
-          -- apply (wshape_mono (g_memo st1)); [|exact (q_shape _ _ _ _ _ Pf)].
+          -- cbn [stopf]. unfold hit. cbn [key_of]. now rewrite Em.
+          -- apply (wshape_mono (stopf (g_memo st)) _ (g_memo st1)); [auto | |exact (q_shape _ _ _ _ _ Pf)].
              apply (q_ext _ _ _ _ _ Px).
-          -- exact (q_shape _ _ _ _ _ Px).
+          -- apply (wshape_mono (stopf (g_memo (snd (fresh st3)))) _ (g_memo se));
+               [|auto|exact (q_shape _ _ _ _ _ Px)].
+             intros e0. cbn. symmetry. now apply stopf_ext.
       + (* data is passed *)
         cbn [fresh fst snd].
         assert (Hwx1 : wdom (g_memo (snd (fresh st1))) x = true).
@@ -470,12 +486,494 @@ Section Part1.
         * intros j0 [].
         * cbn. apply veq_refl.
         * apply ws_data.
-          -- apply (wshape_mono (g_memo st1)); [|exact (q_shape _ _ _ _ _ Pf)].
+          -- cbn [stopf]. unfold hit. cbn [key_of]. now rewrite Em.
+          -- apply (wshape_mono (stopf (g_memo st)) _ (g_memo st1)); [auto | |exact (q_shape _ _ _ _ _ Pf)].
              apply (q_ext _ _ _ _ _ Px).
-          -- exact (q_shape _ _ _ _ _ Px).
+          -- apply (wshape_mono (stopf (g_memo (snd (fresh st1)))) _ (g_memo se));
+               [|auto|exact (q_shape _ _ _ _ _ Px)].
+             intros e0. cbn. symmetry. now apply stopf_ext.
     - (* EAbs *)
       cbn [wdom] in Hdom. unfold hit in Hdom. cbn [add_expr].
       destruct (memo_find (key_of (EAbs j ps b)) (g_memo st)) as [n|] eqn:Em; [|discriminate].
       exists (LLeaf n), st. split; [reflexivity|]. now apply post_hitW.
   Qed.
 End Part1.
+
+(* ======================================================================== *)
+(* Part 2: step 1 of add_workflow *)
+
+Lemma memb_In x l : memb x l = true <-> In x l.
+Proof.
+  unfold memb. rewrite existsb_exists. split.
+  - intros [y [Hy E]]. apply Nat.eqb_eq in E. now subst.
+  - intros H. exists x. split; [exact H | apply Nat.eqb_refl].
+Qed.
+
+Lemma memb_false x l : memb x l = false <-> ~ In x l.
+Proof.
+  rewrite <- memb_In. destruct (memb x l); split; intros H; try reflexivity; try discriminate.
+  exfalso. now apply H.
+Qed.
+
+Lemma nodupb_NoDup l : nodupb l = true -> NoDup l.
+Proof.
+  induction l as [|x l IH]; cbn [nodupb]; [constructor|].
+  intros H. apply andb_true_iff in H. destruct H as [Hx Hl]. constructor; [|auto].
+  apply negb_true_iff in Hx. now apply memb_false.
+Qed.
+
+Lemma NoDup_app_l {A} (l1 l2 : list A) : NoDup (l1 ++ l2) -> NoDup l1.
+Proof.
+  induction l1 as [|x l1 IH]; cbn [app]; [constructor|].
+  intros H. apply NoDup_cons_iff in H. destruct H as [Hx H]. constructor; [|auto].
+  intros F. apply Hx. apply in_app_iff. auto.
+Qed.
+
+Lemma NoDup_app_r {A} (l1 l2 : list A) : NoDup (l1 ++ l2) -> NoDup l2.
+Proof.
+  induction l1 as [|x l1 IH]; cbn [app]; [auto|].
+  intros H. apply NoDup_cons_iff in H. apply IH, H.
+Qed.
+
+Lemma NoDup_app_disj {A} (l1 l2 : list A) x : NoDup (l1 ++ l2) -> In x l1 -> In x l2 -> False.
+Proof.
+  induction l1 as [|y l1 IH]; cbn [app]; [intros _ []|].
+  intros H [<- | H1] H2; apply NoDup_cons_iff in H; destruct H as [Hy H].
+  - apply Hy. apply in_app_iff. auto.
+  - now apply IH.
+Qed.
+
+Lemma elookup_In r ex e : elookup r ex = Some e -> In (r, e) ex.
+Proof.
+  induction ex as [|[r' e'] ex IH]; cbn [elookup]; [discriminate|].
+  destruct (Nat.eqb r r') eqn:E.
+  - intros [= ->]. apply Nat.eqb_eq in E. subst. cbn. auto.
+  - intros H. cbn. auto.
+Qed.
+
+Lemma elookup_None r ex : elookup r ex = None <-> ~ In r (map fst ex).
+Proof.
+  induction ex as [|[r' e'] ex IH]; cbn [elookup map fst In]; [tauto|].
+  destruct (Nat.eqb r r') eqn:E.
+  - apply Nat.eqb_eq in E. subst. split; [discriminate|]. intros H. exfalso. auto.
+  - apply Nat.eqb_neq in E. rewrite IH. split; intros H; [intros [F | F]; [congruence | auto] | auto].
+Qed.
+
+Lemma elookup_dom r ex e : elookup r ex = Some e -> In r (map fst ex).
+Proof. intros H. apply elookup_In in H. apply in_map_iff. exists (r, e). auto. Qed.
+
+Lemma In_elookup r e ex : NoDup (map fst ex) -> In (r, e) ex -> elookup r ex = Some e.
+Proof.
+  induction ex as [|[r' e'] ex IH]; cbn [elookup map fst]; [intros _ []|].
+  intros Hnd [[= -> ->] | H].
+  - now rewrite Nat.eqb_refl.
+  - apply NoDup_cons_iff in Hnd. destruct Hnd as [Hr Hnd].
+    destruct (Nat.eqb r r') eqn:E; [|auto].
+    apply Nat.eqb_eq in E. subst. exfalso. apply Hr. apply in_map_iff. exists (r', e). auto.
+Qed.
+
+Lemma elookup_snoc r ex r' e' :
+  elookup r (ex ++ [(r', e')]) =
+  match elookup r ex with Some e => Some e | None => if Nat.eqb r r' then Some e' else None end.
+Proof.
+  induction ex as [|[r0 e0] ex IH]; cbn [elookup app]; [reflexivity|].
+  destruct (Nat.eqb r r0); [reflexivity | exact IH].
+Qed.
+
+Lemma find_app_some wf r a : find_app wf r = Some a -> In a (w_apps wf) /\ a_out a = r.
+Proof.
+  unfold find_app. intros H. apply find_some in H. destruct H as [H E].
+  apply Nat.eqb_eq in E. auto.
+Qed.
+
+Lemma find_app_unique wf a :
+  NoDup (outs wf) -> In a (w_apps wf) -> find_app wf (a_out a) = Some a.
+Proof.
+  unfold find_app, outs. induction (w_apps wf) as [|b l IH]; cbn [find map]; [intros _ []|].
+  intros Hnd [-> | H].
+  - now rewrite Nat.eqb_refl.
+  - apply NoDup_cons_iff in Hnd. destruct Hnd as [Hb Hnd].
+    destruct (Nat.eqb (a_out b) (a_out a)) eqn:E; [|auto].
+    apply Nat.eqb_eq in E. exfalso. apply Hb. rewrite E. now apply in_map.
+Qed.
+
+Lemma list_max_ge l x : In x l -> x <= list_max l.
+Proof.
+  induction l as [|y l IH]; [intros []|].
+  change (list_max (y :: l)) with (Nat.max y (list_max l)). intros [-> | H].
+  - apply Nat.le_max_l.
+  - specialize (IH H). lia.
+Qed.
+
+(* passthrough on, or the input is a workflow source: the producer's
+   expression is handed to the parser; otherwise a new Source *)
+Section Feeds.
+  Variable wf : wflow.
+  Variable pt : bool.
+
+  Fixpoint feeds (ex : etab) (ins ids : list nat) : option (list expr) :=
+    match ins with
+    | [] => Some []
+    | q :: ins' =>
+        match elookup q ex, feeds ex ins' (tl ids) with
+        | Some e, Some es =>
+            Some ((if pt || memb q (w_srcs wf) then e else ESrc (hd 0 ids)) :: es)
+        | _, _ => None
+        end
+    end.
+
+  Lemma feeds_mono ex ex' ins : forall ids es,
+    (forall r e, elookup r ex = Some e -> elookup r ex' = Some e) ->
+    feeds ex ins ids = Some es -> feeds ex' ins ids = Some es.
+  Proof.
+    induction ins as [|q ins IH]; intros ids es Hm; cbn [feeds]; [auto|].
+    destruct (elookup q ex) as [e|] eqn:Eq; [|discriminate].
+    destruct (feeds ex ins (tl ids)) as [es0|] eqn:Ef; [|discriminate].
+    intros [= <-]. rewrite (Hm _ _ Eq), (IH _ _ Hm Ef). reflexivity.
+  Qed.
+
+  Lemma feeds_nth ex ins : forall ids es k q,
+    feeds ex ins ids = Some es -> nth_error ins k = Some q ->
+    exists e, elookup q ex = Some e /\
+      nth_error es k = Some (if pt || memb q (w_srcs wf) then e else ESrc (nth k ids 0)).
+  Proof.
+    induction ins as [|q0 ins IH]; intros ids es k q; cbn [feeds].
+    - intros _ H. destruct k; discriminate H.
+    - destruct (elookup q0 ex) as [e|] eqn:Eq; [|discriminate].
+      destruct (feeds ex ins (tl ids)) as [es0|] eqn:Ef; [|discriminate].
+      intros [= <-]. destruct k as [|k]; cbn [nth_error].
+      + intros [= <-]. exists e. split; [exact Eq|]. destruct ids; reflexivity.
+      + intros Hk. destruct (IH _ _ _ _ Ef Hk) as [e' [He' Hn]]. exists e'. split; [exact He'|].
+        rewrite Hn. destruct ids; cbn [tl nth]; [destruct k|]; reflexivity.
+  Qed.
+
+  Lemma feeds_length ex ins : forall ids es, feeds ex ins ids = Some es -> length es = length ins.
+  Proof.
+    induction ins as [|q ins IH]; intros ids es; cbn [feeds].
+    - intros [= <-]. reflexivity.
+    - destruct (elookup q ex); [|discriminate].
+      destruct (feeds ex ins (tl ids)) as [es0|] eqn:Ef; [|discriminate].
+      intros [= <-]. cbn. now rewrite (IH _ _ Ef).
+  Qed.
+End Feeds.
+
+Lemma inst_some es : forall t, twfb (length es) t = true -> exists e, inst es t = Some e.
+Proof.
+  induction t as [k | i | i o | i f IHf x IHx fn]; cbn [twfb inst]; intros H.
+  - apply Nat.ltb_lt in H. destruct (nth_error es k) as [e|] eqn:E; [eauto|].
+    apply nth_error_None in E. lia.
+  - eauto.
+  - eauto.
+  - apply andb_true_iff in H. destruct H as [H Hx]. apply andb_true_iff in H. destruct H as [_ Hf].
+    destruct (IHf Hf) as [f' ->].
+    assert (Hx' : twfb (length es) x = true).
+    { destruct fn; [apply andb_true_iff in Hx; apply Hx | exact Hx]. }
+    destruct (IHx Hx') as [x' ->]. eauto.
+Qed.
+
+Definition tmono (ex ex' : etab) : Prop :=
+  forall r e, elookup r ex = Some e -> elookup r ex' = Some e.
+
+Lemma tmono_refl ex : tmono ex ex.
+Proof. intros r e H. exact H. Qed.
+
+Lemma tmono_trans a b c : tmono a b -> tmono b c -> tmono a c.
+Proof. intros H1 H2 r e H. apply H2, H1, H. Qed.
+
+Lemma tmono_snoc ex r e : tmono ex (ex ++ [(r, e)]).
+Proof. intros r0 e0 H. rewrite elookup_snoc, H. reflexivity. Qed.
+
+Lemma tmono_dom ex ex' r : tmono ex ex' -> In r (map fst ex) -> In r (map fst ex').
+Proof.
+  intros Hm Hr. destruct (elookup r ex) as [e|] eqn:E.
+  - apply (elookup_dom r ex' e). apply Hm, E.
+  - apply elookup_None in E. contradiction.
+Qed.
+
+Lemma Forall2_nth {A B} (R : A -> B -> Prop) l1 l2 : Forall2 R l1 l2 ->
+  forall k a, nth_error l1 k = Some a -> exists b, nth_error l2 k = Some b /\ R a b.
+Proof.
+  induction 1 as [|x y l1 l2 Hxy H IH]; intros k a Hk.
+  - destruct k; discriminate Hk.
+  - destruct k as [|k]; cbn [nth_error] in *.
+    + injection Hk as <-. eauto.
+    + apply IH, Hk.
+Qed.
+
+Lemma Forall2_mono {A B} (R R' : A -> B -> Prop) l1 l2 :
+  (forall a b, R a b -> R' a b) -> Forall2 R l1 l2 -> Forall2 R' l1 l2.
+Proof. intros H F. induction F; constructor; auto. Qed.
+
+Section Indirect.
+  Variable wf : wflow.
+
+  Lemma feeds_pass ex ins : forall ids es,
+    Forall2 (fun q e => elookup q ex = Some e) ins es -> feeds wf true ex ins ids = Some es.
+  Proof.
+    induction ins as [|q ins IH]; intros ids es F; inversion F; subst; cbn [feeds]; [reflexivity|].
+    match goal with H : elookup q ex = Some _ |- _ => rewrite H end.
+    erewrite IH by eassumption. reflexivity.
+  Qed.
+
+  Lemma indirect_spec ex ins : forall ids es ind es' E',
+    Forall2 (fun q e => elookup q ex = Some e) ins es ->
+    indirect wf ins ids es (mkE ex ind) = (es', E') ->
+    e_tab E' = ex /\ feeds wf false ex ins ids = Some es' /\
+    (forall id e, In (id, e) (e_ind E') <->
+       In (id, e) ind \/
+       exists k q, nth_error ins k = Some q /\ ~ In q (w_srcs wf) /\ nth k ids 0 = id /\
+                   nth_error es k = Some e).
+  Proof.
+    induction ins as [|q ins IH]; intros ids es ind es' E' F; inversion F; subst; cbn [indirect feeds].
+    - intros [= <- <-]. cbn [e_tab e_ind]. split; [reflexivity|]. split; [reflexivity|].
+      intros id e. split; [auto|]. intros [H | [k [q [Hk _]]]]; [exact H|]. destruct k; discriminate Hk.
+    - match goal with H : elookup q ex = Some ?y |- _ => rename H into Hq; rename y into e0 end.
+      match goal with H : Forall2 _ ins ?l |- _ => rename H into F'; rename l into es0 end.
+      rewrite Hq. cbn [orb].
+      destruct (memb q (w_srcs wf)) eqn:Eq.
+      + destruct (indirect wf ins (tl ids) es0 (mkE ex ind)) as [es'' E''] eqn:Ei.
+        intros [= <- <-]. destruct (IH _ _ _ _ _ F' Ei) as [A [B D]].
+        split; [exact A|]. rewrite B. split; [reflexivity|].
+        intros id e. rewrite D. split.
+        * intros [H | [k [q' [Hk [Hs [Hi He]]]]]]; [auto|]. right. exists (S k), q'. cbn [nth_error].
+          split; [exact Hk|]. split; [exact Hs|]. split; [|exact He].
+          destruct ids; cbn [tl nth] in *; [destruct k|]; exact Hi.
+        * intros [H | [k [q' [Hk [Hs [Hi He]]]]]]; [auto|]. destruct k as [|k]; cbn [nth_error] in *.
+          -- injection Hk as <-. apply memb_In in Eq. contradiction.
+          -- right. exists k, q'. split; [exact Hk|]. split; [exact Hs|]. split; [|exact He].
+             destruct ids; cbn [tl nth] in *; [destruct k|]; exact Hi.
+      + cbn [e_tab e_ind].
+        destruct (indirect wf ins (tl ids) es0 (mkE ex (ind ++ [(hd 0 ids, e0)]))) as [es'' E''] eqn:Ei.
+        intros [= <- <-]. destruct (IH _ _ _ _ _ F' Ei) as [A [B D]].
+        split; [exact A|]. rewrite B. split; [reflexivity|].
+        apply memb_false in Eq.
+        intros id e. rewrite D, in_app_iff. cbn [In]. split.
+        * intros [[H | [[= <- <-] | []]] | [k [q' [Hk [Hs [Hi He]]]]]].
+          -- auto.
+          -- right. exists 0, q. cbn [nth_error]. split; [reflexivity|]. split; [exact Eq|].
+             split; [destruct ids; reflexivity | reflexivity].
+          -- right. exists (S k), q'. cbn [nth_error].
+             split; [exact Hk|]. split; [exact Hs|]. split; [|exact He].
+             destruct ids; cbn [tl nth] in *; [destruct k|]; exact Hi.
+        * intros [H | [k [q' [Hk [Hs [Hi He]]]]]]; [auto|]. destruct k as [|k]; cbn [nth_error] in *.
+          -- injection Hk as <-. injection He as <-. left. right. left.
+             destruct ids; cbn [hd nth] in *; subst; reflexivity.
+          -- right. exists k, q'. split; [exact Hk|]. split; [exact Hs|]. split; [|exact He].
+             destruct ids; cbn [tl nth] in *; [destruct k|]; exact Hi.
+  Qed.
+End Indirect.
+
+Section WF.
+  Variable wf : wflow.
+  Variable pt : bool.
+  Hypothesis Hwf : wf_okb wf = true.
+
+  Let srcs := w_srcs wf.
+  Let apps := w_apps wf.
+  Let rnk := rank wf.
+
+  Lemma wf_parts :
+    NoDup (srcs ++ outs wf) /\ NoDup (srcs ++ all_ids wf) /\
+    (forall a, In a apps -> app_okb wf a = true) /\ exists tg, target wf = Some tg.
+  Proof.
+    unfold wf_okb in Hwf.
+    apply andb_true_iff in Hwf. destruct Hwf as [H Ht].
+    apply andb_true_iff in H. destruct H as [H Ha].
+    apply andb_true_iff in H. destruct H as [H1 H2].
+    split; [now apply nodupb_NoDup|]. split; [now apply nodupb_NoDup|]. split.
+    - intros a Ha'. rewrite forallb_forall in Ha. now apply Ha.
+    - destruct (target wf) as [tg|]; [eauto | discriminate].
+  Qed.
+
+  Lemma nd_res : NoDup (srcs ++ outs wf). Proof. apply wf_parts. Qed.
+  Lemma nd_ids : NoDup (srcs ++ all_ids wf). Proof. apply wf_parts. Qed.
+  Lemma nd_outs : NoDup (outs wf). Proof. apply (NoDup_app_r srcs), nd_res. Qed.
+  Lemma nd_srcs : NoDup srcs. Proof. apply (NoDup_app_l srcs (outs wf)), nd_res. Qed.
+
+  Lemma src_not_out r : In r srcs -> In r (outs wf) -> False.
+  Proof. apply NoDup_app_disj, nd_res. Qed.
+
+  Lemma app_parts a : In a apps ->
+    (forall i, In i (a_ins a) -> (In i srcs \/ In i (outs wf)) /\ rnk i < rnk (a_out a)) /\
+    rnk (a_out a) <= length apps /\
+    twfb (length (a_ins a)) (a_tx a) = true /\ ttop (a_tx a) = true /\
+    length (a_ind a) = length (a_ins a).
+  Proof.
+    intros Ha. destruct wf_parts as [_ [_ [H _]]]. specialize (H a Ha). unfold app_okb in H.
+    apply andb_true_iff in H. destruct H as [H H5]. apply andb_true_iff in H. destruct H as [H H4].
+    apply andb_true_iff in H. destruct H as [H H3]. apply andb_true_iff in H. destruct H as [H1 H2].
+    split; [|split; [|split; [|split]]].
+    - intros i Hi. rewrite forallb_forall in H1. specialize (H1 i Hi).
+      apply andb_true_iff in H1. destruct H1 as [A B]. split.
+      + apply orb_true_iff in A. destruct A as [A | A]; apply memb_In in A; auto.
+      + now apply Nat.ltb_lt in B.
+    - now apply Nat.leb_le in H2.
+    - exact H3.
+    - exact H4.
+    - now apply Nat.eqb_eq in H5.
+  Qed.
+
+  Lemma out_app r : In r (outs wf) -> exists a, In a apps /\ a_out a = r /\ find_app wf r = Some a.
+  Proof.
+    intros H. apply in_map_iff in H. destruct H as [a [E Ha]]. exists a. split; [exact Ha|].
+    split; [exact E|]. rewrite <- E. apply find_app_unique; [apply nd_outs | exact Ha].
+  Qed.
+
+  (* the table of expressions *)
+  Definition ExOK (ex : etab) : Prop :=
+    NoDup (map fst ex) /\
+    (forall s, In s srcs -> elookup s ex = Some (ESrc s)) /\
+    (forall r, In r (map fst ex) -> In r srcs \/ In r (outs wf)) /\
+    (forall r e, elookup r ex = Some e -> ~ In r srcs ->
+       exists a es, find_app wf r = Some a /\ feeds wf pt ex (a_ins a) (a_ind a) = Some es /\
+                    inst es (a_tx a) = Some e).
+
+  Definition IndOK (E : est) : Prop :=
+    forall id e, In (id, e) (e_ind E) <->
+      pt = false /\ exists a k q, In (a_out a) (map fst (e_tab E)) /\ In a apps /\
+        nth_error (a_ins a) k = Some q /\ ~ In q srcs /\ nth_error (a_ind a) k = Some id /\
+        elookup q (e_tab E) = Some e.
+
+  Definition W2E (fuel : nat) : Prop := forall r E,
+    ExOK (e_tab E) -> IndOK E -> (In r srcs \/ In r (outs wf)) -> rnk r < fuel ->
+    exists e E', w2e wf pt fuel r E = Some (e, E') /\
+      ExOK (e_tab E') /\ IndOK E' /\ tmono (e_tab E) (e_tab E') /\
+      elookup r (e_tab E') = Some e /\
+      (forall r', In r' (map fst (e_tab E')) -> In r' (map fst (e_tab E)) \/ rnk r' <= rnk r).
+
+  Lemma mapM_ok fuel (IH : W2E fuel) : forall rs E,
+    ExOK (e_tab E) -> IndOK E ->
+    (forall q, In q rs -> (In q srcs \/ In q (outs wf)) /\ rnk q < fuel) ->
+    exists es E', mapM_e (w2e wf pt fuel) rs E = Some (es, E') /\
+      ExOK (e_tab E') /\ IndOK E' /\ tmono (e_tab E) (e_tab E') /\
+      Forall2 (fun q e => elookup q (e_tab E') = Some e) rs es /\
+      (forall r', In r' (map fst (e_tab E')) ->
+         In r' (map fst (e_tab E)) \/ exists q, In q rs /\ rnk r' <= rnk q).
+  Proof.
+    induction rs as [|q rs IHrs]; intros E Hex Hind Hrs; cbn [mapM_e].
+    - exists [], E. split; [reflexivity|]. split; [exact Hex|]. split; [exact Hind|].
+      split; [apply tmono_refl|]. split; [constructor | auto].
+    - destruct (Hrs q (or_introl eq_refl)) as [Hq1 Hq2].
+      destruct (IH q E Hex Hind Hq1 Hq2) as [e [E1 [Ew [Hex1 [Hind1 [Hm1 [Hl1 Hn1]]]]]]].
+      rewrite Ew.
+      destruct (IHrs E1 Hex1 Hind1) as [es [E2 [Em [Hex2 [Hind2 [Hm2 [Hf2 Hn2]]]]]]].
+      { intros q' Hq'. apply Hrs. cbn. auto. }
+      rewrite Em. exists (e :: es), E2. split; [reflexivity|]. split; [exact Hex2|].
+      split; [exact Hind2|]. split; [eapply tmono_trans; eauto|]. split.
+      + constructor; [apply Hm2, Hl1 | exact Hf2].
+      + intros r' Hr'. destruct (Hn2 r' Hr') as [H | [q' [Hq' Hle]]].
+        * destruct (Hn1 r' H) as [H' | H']; [auto|]. right. exists q. cbn. auto.
+        * right. exists q'. cbn. auto.
+  Qed.
+
+  Lemma w2e_ok : forall fuel, W2E fuel.
+  Proof.
+    induction fuel as [|fuel IH]; intros r E Hex Hind Hr Hrk; [lia|].
+    cbn [w2e].
+    destruct (elookup r (e_tab E)) as [e|] eqn:El.
+    { exists e, E. split; [reflexivity|]. split; [exact Hex|]. split; [exact Hind|].
+      split; [apply tmono_refl|]. split; [exact El | auto]. }
+    destruct Hex as [X0 [X1 [X2 X3]]].
+    assert (Hns : ~ In r srcs).
+    { intros Hs. rewrite (X1 r Hs) in El. discriminate. }
+    destruct Hr as [Hr | Hr]; [contradiction|].
+    destruct (out_app r Hr) as [a [Ha [Eo Efind]]]. rewrite Efind.
+    destruct (app_parts a Ha) as [Hins [Hrka [Htwf [Htop Hlen]]]].
+    rewrite Eo in Hins.
+    destruct (mapM_ok fuel IH (a_ins a) E (conj X0 (conj X1 (conj X2 X3))) Hind)
+      as [es [E1 [Em [Hex1 [Hind1 [Hm1 [Hf1 Hn1]]]]]]].
+    { intros q Hq. destruct (Hins q Hq) as [A B]. split; [exact A|]. lia. }
+    rewrite Em.
+    assert (Hr1 : ~ In r (map fst (e_tab E1))).
+    { intros H. destruct (Hn1 r H) as [H' | [q [Hq Hle]]].
+      - apply elookup_None in El. contradiction.
+      - destruct (Hins q Hq) as [_ B]. lia. }
+    (* the expressions handed to the parser *)
+    assert (Hfeed : exists es' E2,
+      (if pt then (es, E1) else indirect wf (a_ins a) (a_ind a) es E1) = (es', E2) /\
+      e_tab E2 = e_tab E1 /\ feeds wf pt (e_tab E1) (a_ins a) (a_ind a) = Some es' /\
+      (forall id e, In (id, e) (e_ind E2) <->
+         In (id, e) (e_ind E1) \/
+         (pt = false /\ exists k q, nth_error (a_ins a) k = Some q /\ ~ In q srcs /\
+            nth k (a_ind a) 0 = id /\ nth_error es k = Some e))).
+    { destruct pt eqn:Ept.
+      - exists es, E1. split; [reflexivity|]. split; [reflexivity|]. split; [now apply feeds_pass|].
+        intros id e. split; [auto|]. intros [H | [H _]]; [exact H | discriminate H].
+      - destruct E1 as [tab1 ind1]. cbn [e_tab e_ind] in *.
+        destruct (indirect wf (a_ins a) (a_ind a) es (mkE tab1 ind1)) as [es' E2] eqn:Ei.
+        destruct (indirect_spec wf tab1 (a_ins a) (a_ind a) es ind1 es' E2 Hf1 Ei) as [A [B D]].
+        exists es', E2. split; [reflexivity|]. split; [exact A|]. split; [exact B|].
+        intros id e. rewrite D. split.
+        + intros [H | H]; [auto|]. right. split; [reflexivity | exact H].
+        + intros [H | [_ H]]; auto. }
+    destruct Hfeed as [es' [E2 [Efeed [Etab2 [Hfeeds Hind2]]]]].
+    rewrite Efeed.
+    assert (Hlen' : length es' = length (a_ins a)) by (eapply feeds_length; eauto).
+    destruct (inst_some es' (a_tx a)) as [e Einst]; [now rewrite Hlen'|].
+    rewrite Einst.
+    set (tab3 := e_tab E2 ++ [(r, e)]).
+    assert (Hm3 : tmono (e_tab E1) tab3).
+    { unfold tab3. rewrite Etab2. apply tmono_snoc. }
+    assert (Hl3 : elookup r tab3 = Some e).
+    { unfold tab3. rewrite elookup_snoc, Etab2.
+      destruct (elookup r (e_tab E1)) as [e1|] eqn:E1r.
+      - exfalso. apply Hr1. eapply elookup_dom; eauto.
+      - now rewrite Nat.eqb_refl. }
+    destruct Hex1 as [Y0 [Y1 [Y2 Y3]]].
+    assert (Hdom3 : forall r', In r' (map fst tab3) <-> In r' (map fst (e_tab E1)) \/ r' = r).
+    { intros r'. unfold tab3. rewrite Etab2, map_app, in_app_iff. cbn. intuition auto. }
+    exists e, (mkE tab3 (e_ind E2)). split; [reflexivity|]. cbn [e_tab e_ind].
+    split; [|split; [|split; [|split]]].
+    - (* ExOK *)
+      split; [|split; [|split]].
+      + unfold tab3. rewrite Etab2, map_app. cbn [map fst].
+        apply NoDup_app_intro; [exact Y0 | repeat constructor; intros [] |].
+        intros y Hy [<- | []]. contradiction.
+      + intros s Hs. apply Hm3, Y1, Hs.
+      + intros r' Hr'. apply Hdom3 in Hr'. destruct Hr' as [H | ->]; [apply Y2, H | auto].
+      + intros r' e' Hl' Hns'. unfold tab3 in Hl'. rewrite elookup_snoc, Etab2 in Hl'.
+        destruct (elookup r' (e_tab E1)) as [e1|] eqn:E1r.
+        * injection Hl' as <-. destruct (Y3 r' e1 E1r Hns') as [a' [es1 [A [B D]]]].
+          exists a', es1. split; [exact A|]. split; [|exact D].
+          eapply feeds_mono; [exact Hm3 | exact B].
+        * destruct (Nat.eqb r' r) eqn:Er; [|discriminate]. apply Nat.eqb_eq in Er. subst r'.
+          injection Hl' as <-. exists a, es'. split; [exact Efind|]. split; [|exact Einst].
+          eapply feeds_mono; [exact Hm3 | exact Hfeeds].
+    - (* IndOK *)
+      intros id e0. rewrite Hind2, (Hind1 id e0). split.
+      + intros [[Hp [a' [k [q [Hd [Ha' [Hk [Hq [Hi He]]]]]]]]] | [Hp [k [q [Hk [Hq [Hi He]]]]]]].
+        * split; [exact Hp|]. exists a', k, q. split; [apply Hdom3; auto|]. split; [exact Ha'|].
+          split; [exact Hk|]. split; [exact Hq|]. split; [exact Hi|]. apply Hm3, He.
+        * split; [exact Hp|]. exists a, k, q. split; [apply Hdom3; auto|]. split; [exact Ha|].
+          split; [exact Hk|]. split; [exact Hq|]. split.
+          -- rewrite <- Hi. apply nth_error_nth'. rewrite Hlen. apply nth_error_Some. congruence.
+          -- destruct (Forall2_nth _ _ _ Hf1 k q Hk) as [e1 [He1 Hl1]].
+             rewrite He in He1. injection He1 as <-. apply Hm3, Hl1.
+      + intros [Hp [a' [k [q [Hd [Ha' [Hk [Hq [Hi He]]]]]]]]].
+        apply Hdom3 in Hd. destruct Hd as [Hd | Hd].
+        * left. split; [exact Hp|]. exists a', k, q. split; [exact Hd|]. split; [exact Ha'|].
+          split; [exact Hk|]. split; [exact Hq|]. split; [exact Hi|].
+          (* q was looked up when a' was built *)
+          assert (Hns' : ~ In (a_out a') srcs).
+          { intros F. apply (src_not_out _ F). unfold outs. now apply in_map. }
+          destruct (elookup (a_out a') (e_tab E1)) as [ea|] eqn:Ela;
+            [|apply elookup_None in Ela; contradiction].
+          destruct (Y3 _ _ Ela Hns') as [a'' [es1 [A [B _]]]].
+          rewrite (find_app_unique wf a' nd_outs Ha') in A. injection A as <-.
+          destruct (feeds_nth wf pt _ _ _ _ k q B Hk) as [e1 [He1 _]].
+          rewrite (Hm3 _ _ He1) in He. injection He as <-. exact He1.
+        * right. split; [exact Hp|].
+          assert (a' = a).
+          { rewrite <- Eo in Hd. pose proof (find_app_unique wf a' nd_outs Ha') as F1.
+            rewrite Hd in F1. rewrite Eo, Efind in F1. now injection F1. }
+          subst a'. exists k, q. split; [exact Hk|]. split; [exact Hq|]. split.
+          -- now apply nth_error_nth.
+          -- destruct (Forall2_nth _ _ _ Hf1 k q Hk) as [e1 [He1 Hl1]].
+             rewrite (Hm3 _ _ Hl1) in He. injection He as <-. exact He1.
+    - eapply tmono_trans; eauto.
+    - exact Hl3.
+    - intros r' Hr'. apply Hdom3 in Hr'. destruct Hr' as [H | ->]; [|right; lia].
+      destruct (Hn1 r' H) as [H' | [q [Hq Hle]]]; [auto|].
+      destruct (Hins q Hq) as [_ B]. right. lia.
+  Qed.
+End WF.
